@@ -11,7 +11,7 @@ import contextlib
 import hashlib
 import tempfile
 
-from decwire import wire, dec
+from decwire import wire, dec, cell, pwire
 
 
 def comp_pay(comp):
@@ -23,17 +23,17 @@ def comp_pay(comp):
     try:
         for k in comp._get_limits():
             if k in comp._limits and comp._limits[k] != LIMITS_DEFAULT[k]:
-                lim.append([k, wire(comp._limits[k])])
+                lim.append([k, [cell(x) for x in comp._limits[k]]])
     except Exception as e:  # pragma: no cover - defensive
         lim = [["error", str(e)]]
-    return {"params": wire(params), "limits": lim}
+    return {"params": {k: pwire(v) for k, v in params.items()}, "limits": lim}
 
 
 def conf_wire(c):
     if isinstance(c, dict):
         if not c:
             return {"t": "none", "v": []}
-        return {"t": "map", "v": [[str(k), wire(v)] for k, v in c.items()]}
+        return {"t": "map", "v": [[str(k), cell(v)] for k, v in c.items()]}
     if isinstance(c, list):
         return {"t": "list", "v": [wire(x) for x in c]}
     return {"t": "bad", "v": []}
@@ -108,7 +108,7 @@ def project(s):
             if k not in pnames_seen:
                 anom.append([cat, reg + "-key-without-component", k])
     comps.sort(key=lambda c: c["name"])
-    sysph = [{"name": str(k), "dur": wire(v)} for k, v in at["phases"].items()]
+    sysph = [{"name": str(k), "dur": cell(v)} for k, v in at["phases"].items()]
     return {"sysname": at["name"], "comps": comps, "sysph": sysph, "anom": sorted(anom)}
 
 
